@@ -62,7 +62,7 @@ var rules = []rule{
 		// scheduling point (the callback runs on the backend's own goroutine,
 		// outside its internal mutex)
 		"sync": {fac + "vsync", "sync"},
-	}, nil, nil},
+	}, nil, []string{"mem.go:stmts"}},
 	// the client limiter: scheduling points at function, loop and if/else
 	// block entries, but never inside function literals - those are the
 	// callbacks that the concurrent map runs with a bucket lock held, and a
@@ -140,13 +140,16 @@ func main() {
 			b, err := os.ReadFile(src)
 			must(err)
 			wantY := false
-			blocksOnly = false
+			blocksOnly, everyStmt = false, false
 			for _, y := range r.yields {
 				if y == "*" || y == name {
 					wantY = true
 				}
 				if y == name+":blocks" {
 					wantY, blocksOnly = true, true
+				}
+				if y == name+":stmts" {
+					wantY, blocksOnly, everyStmt = true, true, true
 				}
 			}
 			nb, changed, err := rewrite(src, b, r.swaps, wantY)
@@ -259,6 +262,11 @@ func main() {
 // loop and if/else block entries, and none inside function literals.
 var blocksOnly bool
 
+// everyStmt (with blocksOnly): a scheduling point in front of every statement
+// of every block outside function literals - the stand-in for pre-emption
+// between any two statements of code that holds no lock of its own.
+var everyStmt bool
+
 func rewrite(path string, src []byte, swaps map[string][2]string, yields bool) ([]byte, bool, error) {
 	fset := token.NewFileSet()
 	mode := parser.ImportsOnly | parser.ParseComments
@@ -291,6 +299,17 @@ func rewrite(path string, src []byte, swaps map[string][2]string, yields bool) (
 					return false
 				}
 				body = x.Body
+			case *ast.BlockStmt:
+				if everyStmt {
+					for i, st := range x.List {
+						if i == 0 {
+							continue // the block's own entry point covers it
+						}
+						off := fset.Position(st.Pos()).Offset
+						edits = append(edits, edit{off, off, "vsimy.Y(); "})
+						n++
+					}
+				}
 			case *ast.IfStmt:
 				if blocksOnly {
 					off := fset.Position(x.Body.Lbrace).Offset + 1
